@@ -47,6 +47,12 @@ INSTANCES = {
               menu=[dict(tasks=[(1, [], 0, 0), (2, [], 0, 0)], climit=1, max_fails=-1),
                     dict(tasks=[(1, [], 1, 1)], climit=1, max_fails=-1)],
               losses=1, cancels=1, fails=1, launch_fails=0, pf_reserve=0, pf_max=1, modes=["eager"], tier="thorough"),
+    # an open job: two submits attached to it (the second depends on a task of the first), close, cancel, failure
+    "O": dict(workers=[1, 1], classes=[1], open_jobs={1: -1},
+              menu=[dict(job=1, tasks=[(1, [], 0, 0), (2, [1], 0, 0)], climit=0, max_fails=-1),
+                    dict(job=1, tasks=[(3, [1], 0, 0), (4, [3], 0, 1)], climit=0, max_fails=-1),
+                    dict(job=2, tasks=[(1, [], 0, 0)], climit=0, max_fails=-1)],
+              losses=0, cancels=1, fails=1, launch_fails=0, pf_reserve=0, pf_max=1, modes=["eager"], tier="thorough"),
     # restart from the journal at every crash point (journal kept as history variable, so the instance is tiny):
     # dependency + job failure limit 0 + crash limit 2, two losses, a failure, a cancel
     "J": dict(workers=[1, 1], classes=[1], journaling=True,
@@ -70,7 +76,7 @@ INVARIANTS = [
     "NoPanic",
     "C01_OutcomeOnce", "C01_FinishAfterStart", "C01_FinishedRan", "C01_JobAgrees",
     "C02_Registry", "C02_ClosedJobsComplete",
-    "C03_NeverStartedAfterFailedDep", "C03_PropagateAtRest", "C03_Unaffected", "C03_DepsCounted",
+    "C03_NeverStartedAfterFailedDepModLate", "C03_PropagateAtRestModLate", "C03_Unaffected",
     "C04_RunningExclusive", "C04_RunningExact",
     "C05_NoOverbookModHandover", "C05_PlacedCapable",
     "C06_OneExecution", "C06_InstMonotone",
@@ -97,14 +103,16 @@ def instance_tla(name, inst):
     menu = []
     for j, s in enumerate(inst["menu"]):
         ts = ", ".join(f"T({t[0]}, {tla_set(t[1])}, {t[2]}, {t[3]})" for t in s["tasks"])
-        menu.append(f"S({j + 1}, <<{ts}>>, {s['climit']}, {s['max_fails']})")
-    return (f"{name}_Workers == {ws}\n{name}_Groups == {gs}\n{name}_Classes == <<{cls}>>\n{name}_Menu == << " + ",\n             ".join(menu) + " >>\n")
+        menu.append(f"S({s.get('job', j + 1)}, <<{ts}>>, {s['climit']}, {s['max_fails']})")
+    op = inst.get("open_jobs") or {}
+    ops = " @@ ".join(f"({j} :> {mf})" for j, mf in sorted(op.items())) or "<<>>"
+    return (f"{name}_Workers == {ws}\n{name}_Groups == {gs}\n{name}_Classes == <<{cls}>>\n{name}_Open == {ops}\n{name}_Menu == << " + ",\n             ".join(menu) + " >>\n")
 
 
 def cfg_text(name, inst, mode, spec="Spec", extra_inv=()):
     inv = INVARIANTS + (EAGER_ONLY if mode == "eager" else []) + (JOURNAL_INV if inst.get("journaling") else []) + list(extra_inv)
     lines = [f"SPECIFICATION {spec}", "CONSTANTS",
-             f"  WorkerCpus <- {name}_Workers", f"  WorkerGroup <- {name}_Groups", f"  Menu <- {name}_Menu", f"  Classes <- {name}_Classes",
+             f"  WorkerCpus <- {name}_Workers", f"  WorkerGroup <- {name}_Groups", f"  Menu <- {name}_Menu", f"  OpenJobs <- {name}_Open", f"  Classes <- {name}_Classes",
              f"  MaxLosses = {inst['losses']}", f"  MaxCancels = {inst['cancels']}", f"  MaxFails = {inst['fails']}",
              f"  MaxLaunchFails = {inst['launch_fails']}", f"  PfReserve = {inst['pf_reserve']}", f"  PfMax = {inst['pf_max']}",
              f"  Eager = {'TRUE' if mode == 'eager' else 'FALSE'}", f"  Journaling = {'TRUE' if inst.get('journaling') else 'FALSE'}",
@@ -150,11 +158,11 @@ def profile_of(name):
         "initial_workers": [kinds.index(cg) for cg in zip(inst["workers"], groups)], "max_connects": 0,
         "classes": [({"variants": [{"cpus": 0, "gpus": 0, "min_time": 0}], "n_nodes": c[1]} if isinstance(c, tuple)
                      else {"variants": [{"cpus": c * 10000, "gpus": 0, "min_time": 0}], "n_nodes": 0}) for c in inst["classes"]],
-        "submits": [{"into_open": False, "ids": [], "entries": 0,
+        "submits": [{"into_open": bool((inst.get("open_jobs") or {}).get(s.get("job"), None) is not None) if s.get("job") in (inst.get("open_jobs") or {}) else False, "ids": [], "entries": 0,
                      "graph": [{"id": t[0], "deps": list(t[1]), "class": t[2], "prio": t[3]} for t in s["tasks"]],
                      "class": 0, "prio": 0, "crash_limit": s["climit"], "time_limit": 0, "max_fails": s["max_fails"], "stream": False}
                     for s in inst["menu"]],
-        "max_submits": len(inst["menu"]), "opens": 0, "losses": inst["losses"], "cancels": inst["cancels"], "fails": inst["fails"],
+        "max_submits": len(inst["menu"]), "opens": len(inst.get("open_jobs") or {}), "losses": inst["losses"], "cancels": inst["cancels"], "fails": inst["fails"],
         "launch_fails": inst["launch_fails"], "stops": 0, "ticks": 0, "forgets": 0, "drain": True, "prunes": 0, "queue_events": 0,
     }
 
